@@ -277,7 +277,10 @@ pub fn build_top_level_matcher(
     args: &[&str],
     config: &mut Config,
 ) -> Result<Box<dyn Matcher>, Box<dyn Error>> {
-    let (_, top_level_matcher) = (build_matcher_tree(args, config, 0, false))?;
+    // -regextype applies to every -regex/-iregex after it on the command line,
+    // also across parentheses, so its state is shared by all nesting levels.
+    let mut regex_type = regex::RegexType::default();
+    let (_, top_level_matcher) = (build_matcher_tree(args, config, 0, false, &mut regex_type))?;
 
     // if the matcher doesn't have any side-effects, then we default to printing
     if !top_level_matcher.has_side_effects() {
@@ -436,10 +439,9 @@ fn build_matcher_tree(
     config: &mut Config,
     arg_index: usize,
     mut expecting_bracket: bool,
+    regex_type: &mut regex::RegexType,
 ) -> Result<(usize, Box<dyn Matcher>), Box<dyn Error>> {
     let mut top_level_matcher = ListMatcherBuilder::new();
-
-    let mut regex_type = regex::RegexType::default();
 
     // can't use getopts for a variety or reasons:
     // order of arguments is important
@@ -528,7 +530,7 @@ fn build_matcher_tree(
                     return Err(From::from(format!("missing argument to {}", args[i])));
                 }
                 i += 1;
-                regex_type = regex::RegexType::from_str(args[i])?;
+                *regex_type = regex::RegexType::from_str(args[i])?;
                 Some(TrueMatcher.into_box())
             }
             "-regex" => {
@@ -536,14 +538,14 @@ fn build_matcher_tree(
                     return Err(From::from(format!("missing argument to {}", args[i])));
                 }
                 i += 1;
-                Some(RegexMatcher::new(regex_type, args[i], false)?.into_box())
+                Some(RegexMatcher::new(*regex_type, args[i], false)?.into_box())
             }
             "-iregex" => {
                 if i >= args.len() - 1 {
                     return Err(From::from(format!("missing argument to {}", args[i])));
                 }
                 i += 1;
-                Some(RegexMatcher::new(regex_type, args[i], true)?.into_box())
+                Some(RegexMatcher::new(*regex_type, args[i], true)?.into_box())
             }
             "-type" => {
                 if i >= args.len() - 1 {
@@ -813,7 +815,8 @@ fn build_matcher_tree(
                 None
             }
             "(" => {
-                let (new_arg_index, sub_matcher) = build_matcher_tree(args, config, i + 1, true)?;
+                let (new_arg_index, sub_matcher) =
+                    build_matcher_tree(args, config, i + 1, true, regex_type)?;
                 i = new_arg_index;
                 Some(sub_matcher)
             }
